@@ -23,8 +23,21 @@ Mul(a, b) == IF a[1] = 0 \/ b[1] = 0 THEN <<0, 1>>
                   IN Norm((a[1] \div g1) * (b[1] \div g2), (a[2] \div g2) * (b[2] \div g1))
 Inv(a) == Norm(a[2], a[1])
 Div(a, b) == Mul(a, Inv(b))
-Lt(a, b) == Sub(a, b)[1] < 0
-Le(a, b) == Sub(a, b)[1] <= 0
+\* order: compared through the continued-fraction expansions (integer parts first, then the
+\* reciprocals of the remainders with the roles exchanged), so that no product or lcm is formed
+\* and the comparison cannot overflow whatever the denominators are
+RECURSIVE LtNonNeg(_, _, _, _)
+LtNonNeg(an, ad, bn, bd) ==            \* an/ad < bn/bd  for an, bn >= 0 and ad, bd > 0
+    LET qa == an \div ad  qb == bn \div bd  ra == an % ad  rb == bn % bd
+    IN IF qa # qb THEN qa < qb
+       ELSE IF rb = 0 THEN FALSE
+       ELSE IF ra = 0 THEN TRUE
+       ELSE LtNonNeg(bd, rb, ad, ra)
+Lt(a, b) == IF a[1] < 0 /\ b[1] >= 0 THEN TRUE
+            ELSE IF a[1] >= 0 /\ b[1] < 0 THEN FALSE
+            ELSE IF a[1] >= 0 THEN LtNonNeg(a[1], a[2], b[1], b[2])
+            ELSE LtNonNeg(-b[1], b[2], -a[1], a[2])
+Le(a, b) == a = b \/ Lt(a, b)
 Eq(a, b) == a = b
 AbsR(a) == <<AbsI(a[1]), a[2]>>
 IsZero(a) == a[1] = 0
